@@ -1,5 +1,6 @@
 import O2P.Model.Jq
 import O2P.Lemmas.JqSem
+import O2P.Lemmas.JqTrie
 /-!
 # C13 — field-mapping extraction follows the documented path semantics
 Theorems about the extraction model `O2P.Jq` (the behaviour of the compiled mapping):
@@ -200,6 +201,14 @@ theorem compile_correct (p : Program) (doc : Json) (h : wfProgram p = true) :
   congr 1
   simp only [extract, bindings, List.map_map, List.nil_append]
   rfl
+
+/-- **C13 compile_correct for every mapping**: the compiler allocates variables parent-first and its
+depth-first binding order reaches each of them (`compile_wf`), so for every normalised mapping whose fields
+and parts are non-empty (the Python code raises on the others) and every document, the emitted query
+evaluates, under the jq semantics, to exactly the records of the documented extraction. -/
+theorem compile_correct_all (m : List (String × FieldSpecN)) (doc : Json) (h : wfMapping m) :
+    runQuery (emitProgram (compile m)) doc = .ok ((extract (compile m) doc).map Json.obj) :=
+  compile_correct (compile m) doc (compile_wf m h)
 
 /-- non-vacuity: a two-level mapping (resource → spans) with a header lookup, a `_` join with a fall-back
 and an array-valued field is well-formed, and its query yields the two records of a small document -/
